@@ -46,4 +46,5 @@ if os.path.exists(sp):
         mi = [os.path.basename(rel)[:-5] for rel, r in items if r['status'] == 'MISSED']
         st = [os.path.basename(rel)[:-5] for rel, r in items if r['status'] not in ('caught', 'MISSED')]
         o.append('| %s | %d | %d | %s | %s |\n' % (p, len(items), len(c), ', '.join(mi) or '–', ', '.join(st) or '–'))
+o.append(open(os.path.join(V, 'tools', 'design11_impl.md')).read())
 print(''.join(o))
